@@ -949,19 +949,35 @@ func parseEvPat(s string) (*EvPat, error) {
 			i = -1
 		}
 		if strings.HasSuffix(rest, ")") {
-			// find the matching "(" of the final group
-			depth := 0
-			for k := len(rest) - 1; k >= 0; k-- {
-				if rest[k] == ')' {
-					depth++
-				} else if rest[k] == '(' {
-					depth--
+			// find the "(" that opens the final (...) group, skipping string literals
+			depth, start, inStr := 0, -1, false
+			last := -1
+			for k := 0; k < len(rest); k++ {
+				c := rest[k]
+				if inStr {
+					if c == '\\' {
+						k++
+					} else if c == '"' {
+						inStr = false
+					}
+					continue
+				}
+				switch c {
+				case '"':
+					inStr = true
+				case '(':
 					if depth == 0 {
-						i = k
-						break
+						start = k
+					}
+					depth++
+				case ')':
+					depth--
+					if depth == 0 && k == len(rest)-1 {
+						last = start
 					}
 				}
 			}
+			i = last
 			// "(*T).m" alone ends with no argument group: the group found is the receiver
 			if i == 0 {
 				i = -1
